@@ -195,12 +195,23 @@ def run_views(ctx, case):
     inst = case["instance"]
     meta = random_metadata(rng)
     name = rng.choice(["inst", "name with spaces", "x.y", "la01", "", "0"])
-    I = JobShopInstance.from_matrices(
-        [list(j) for j in inst["durations"]],
-        [[list(m) for m in j] for j in inst["machines"]] if rng.random() < 0.5 or gen.is_flexible(inst)
-        else [[m[0] for m in j] for j in inst["machines"]],
-        name=name, metadata=dict(meta))
+    own_durations = [list(j) for j in inst["durations"]]
+    own_machines = ([[list(m) for m in j] for j in inst["machines"]] if rng.random() < 0.5 or gen.is_flexible(inst)
+                    else [[m[0] for m in j] for j in inst["machines"]])
+    I = JobShopInstance.from_matrices(own_durations, own_machines, name=name, metadata=dict(meta))
     check_views(ctx, inst, I)
+    if case["seed"] % 4 == 1:
+        # the caller goes on working with its own matrices (a perturbation loop): the instance
+        # built from them is not affected
+        for row in own_durations:
+            row[0] = row[0] + 7
+        own_durations.append([1])
+        for row in own_machines:
+            # (entries are replaced, not edited: an operation keeps the machines list it was given)
+            row[0] = [98, 99] if isinstance(row[0], list) else 98
+        I.durations_matrix; I.machines_matrix
+        check_views(ctx, inst, I, "views after the caller changed its own matrices")
+        ctx.count("callers_matrices_changed_after_from_matrices")
     # views asked twice (cached) and after to_dict
     d = I.to_dict()
     check_views(ctx, inst, I, "views after to_dict")
@@ -325,6 +336,28 @@ def run_sequences(ctx, case):
                            "metadata": [s.instance.metadata, run.instance.metadata]})
     if content(run.instance) != fp_before:
         ctx.violation("c14_instance_modified", {"by": "from_job_sequences/from_dict"})
+    if case["seed"] % 6 == 1 and inst.get("cls") != "fractional":
+        # the same content with durations that arrived as numpy integers (read from an array):
+        # dispatching and decoding give the same schedule
+        import numpy as np
+        from job_shop_lib import JobShopInstance, Operation
+        npI = JobShopInstance([[Operation(list(ms), np.int64(dd)) for ms, dd in zip(mj, dj)]
+                               for mj, dj in zip(inst["machines"], inst["durations"])], name="from an array")
+        try:
+            runN = Run(inst, instance=npI)
+            for o, m in r.history:
+                runN.dispatch(o, m)
+            SN = Schedule.from_job_sequences(npI, [list(q) for q in seqs])
+            SD = Schedule.from_dict(npI, [list(q) for q in seqs])
+        except Exception as e:
+            ctx.violation("c14_numpy_integer_durations_rejected", {"error": repr(e)[:200], "sequences": seqs})
+        else:
+            ctx.count("schedules_with_numpy_integer_durations")
+            for nm, s in (("dispatcher-built", runN.d.schedule), ("from_job_sequences", SN), ("from_dict", SD)):
+                got = [[(a, int(b), int(c)) for a, b, c in lst] for lst in schedule_triples(s)]
+                if got != want:
+                    ctx.violation("c14_schedule_with_numpy_integer_durations_differs",
+                                  {"where": nm, "got": got, "want": want})
     # ------------------------------------------------------------ permutations
     for rep in range(3):
         ctx.count("permutation_sets")
